@@ -59,6 +59,8 @@ OPTION_DEVS = {
     "Determinant0": lambda s: _crop(s, Determinant=0),
     "Determinant1": lambda s: _crop(s, Determinant=1),
     "SwitchGDD1": lambda s: _crop(s, SwitchGDD=1),
+    # conversion to thermal time with a yield formation shorter (in days) than one warm day's degree days
+    "SwitchGDD1_short_yield_formation": lambda s: _crop(s, SwitchGDD=1, YldFormCD=15) if not s["crop"]["name"].endswith("GDD") else None,
     "PolStress0": lambda s: _crop(s, PolHeatStress=0, PolColdStress=0, TrColdStress=0),
     # field features MERGE into the field management already chosen (pairs of deviations put two features on the same field)
     "bunds_z0": lambda s: _fieldkw(s, "field", bunds=True, z_bund=0.0),
